@@ -1,11 +1,16 @@
 (** C05 — Sid -> path -> Sid is the identity in every path configuration.  Property theorems only.
     The hard direction needs that the path templates are unambiguous (the first template matching a formatted path is
-    its own, with its own field values).  That is an explicit hypothesis here ([path_to_dict] gives back type and fields):
-    the theorems are _partial, and the hypothesis is checked on the implementation for every generated Sid on every run
-    (round trip in every path configuration, both load orders), not proved for the configured templates. *)
+    its own, with its own field values).  [C05_roundtrip_partial] keeps that as an explicit hypothesis; [C05_roundtrip]
+    discharges it for every configuration that passes the decidable check [paths_unambiguousb] of Path/UnambiguousDefs.v
+    (each template factors a string in one way only; every earlier template is separated from the concrete strings of a
+    later one), which the configuration of this run is proved to pass ([C05_paths_unambiguous], by computation, re-proved
+    on every run from the regenerated configuration).  Value guard of the full theorem: no value is "" or "." or contains
+    "/" or a newline (the D26 collision below is exactly the excluded case), mapped keys carry mapped values, and closed
+    placeholders carry concrete (non "*" / ">") alternatives. *)
 From Coq Require Import List String Ascii Bool Arith.
 From Spil Require Import Base.Str Base.Dict Base.Outcome Base.PyPath Resolva.Resolver Conf.Conf Conf.Routing Conf.WF Sid.Sid
-  Search.Unfold Search.Finders FS.Fs Data.Data Data.Crash Path.PathProofs Data.DataProofs Data.CrashProofs.
+  Search.Unfold Search.Finders FS.Fs Data.Data Data.Crash Path.PathProofs Data.DataProofs Data.CrashProofs
+  Sid.SidProofs Path.UnambiguousDefs Path.UnambiguousProofs.
 From SpilGen Require Hamlet.
 Import ListNotations.
 Local Open Scope string_scope.
@@ -18,7 +23,42 @@ Theorem C05_roundtrip_partial : forall c Ld x cfg p, load c = Some Ld -> wf_load
 Proof. exact roundtrip_partial. Qed.
 Print Assumptions C05_roundtrip_partial.
 
-(* two Sids never come out of the same path *)
+(* the full round trip, for every configuration passing the unambiguity check *)
+Theorem C05_roundtrip : forall c Ld x cfg p, load c = Some Ld -> wf_loadedb Ld = true -> paths_unambiguousb Ld = true ->
+  naturally_typed Ld x -> concrete Ld x -> path_values_ok x ->
+  sid_path Ld x cfg = Ok (Some p) -> sid_of_path Ld p cfg = Ok x.
+Proof. exact roundtrip. Qed.
+Print Assumptions C05_roundtrip.
+
+(* the resolver gives back type and fields of a formatted path *)
+Theorem C05_path_to_dict_of_path : forall c Ld x cfg p, load c = Some Ld -> wf_loadedb Ld = true -> paths_unambiguousb Ld = true ->
+  naturally_typed Ld x -> concrete Ld x -> path_values_ok x ->
+  sid_path Ld x cfg = Ok (Some p) -> path_to_dict Ld p cfg = Ok (Some (s_type x, s_fields x)).
+Proof. exact path_to_dict_of_path. Qed.
+Print Assumptions C05_path_to_dict_of_path.
+
+(* two different Sids never map to the same path *)
+Theorem C05_path_injective : forall c Ld x y cfg p, load c = Some Ld -> wf_loadedb Ld = true -> paths_unambiguousb Ld = true ->
+  naturally_typed Ld x -> concrete Ld x -> path_values_ok x -> sid_path Ld x cfg = Ok (Some p) ->
+  naturally_typed Ld y -> concrete Ld y -> path_values_ok y -> sid_path Ld y cfg = Ok (Some p) -> x = y.
+Proof. exact path_injective. Qed.
+Print Assumptions C05_path_injective.
+
+(* the configuration of this run passes the check *)
+Example C05_paths_unambiguous : paths_unambiguousb Hamlet.the_loaded = true.
+Proof. vm_compute. reflexivity. Qed.
+Print Assumptions C05_paths_unambiguous.
+
+(* non-vacuity: a concrete Sid of this configuration meets every hypothesis of C05_roundtrip *)
+Example C05_hypotheses_hold :
+  match Sid Hamlet.the_loaded "hamlet/a/char/ophelia/model/v001/w/ma" with
+  | Ok x => sid_bool x && concreteb Hamlet.the_loaded x && path_values_okb x
+  | Raise _ => false
+  end = true.
+Proof. vm_compute. reflexivity. Qed.
+Print Assumptions C05_hypotheses_hold.
+
+(* one path never yields two Sids *)
 Theorem C05_injective : forall c Ld x y cfg p, load c = Some Ld -> wf_loadedb Ld = true ->
   sid_of_path Ld p cfg = Ok x -> sid_of_path Ld p cfg = Ok y -> x = y.
 Proof. exact path_injective_partial. Qed.
